@@ -4,6 +4,7 @@ CONSTANTS
   SMRoles <- TNone
   SMKeys <- TNone
   SMDamage <- TNone
+  SMDurs <- TNone
   SMJunk <- TNone
 INVARIANT Report
 POSTCONDITION AllConsumed
